@@ -41,6 +41,7 @@ pub fn gen_unknown_key(rng: &mut Rng, known: &[String]) -> V {
                 let n = rng.usize(40);
                 rng.text_bytes(n)
             }
+            7 if !crate::schema::literals().texts.is_empty() => rng.pick(&crate::schema::literals().texts).clone(),
             _ => (*rng.pick(&REAL_WORLD)).to_string(),
         };
         if !known.iter().any(|x| *x == k) {
